@@ -41,7 +41,7 @@ fn gen_elems(rng: &mut Rng) -> Vec<KP> {
 fn sp(out: &mut String, rng: &mut Rng, on: bool) {
     if on && rng.chance(1, 2) {
         for _ in 0..rng.below(2) + 1 {
-            out.push(*rng.pick(&[' ', '\t', '\n', ' ']));
+            out.push(*rng.pick(&[' ', '\t', '\n', ' ', '\r']));
         }
     }
 }
